@@ -26,11 +26,13 @@ def mutants():
     p = os.path.join(HERE, "mutants", "RESULTS.tsv")
     if not os.path.exists(p):
         return "(mutation sweep not run yet)"
-    rows = ["| mutant (mutants/…) | check | result | s |", "|---|---|---|---|"]
+    np_ = os.path.join(HERE, "mutants", "NOTES.json")
+    notes = json.load(open(np_)) if os.path.exists(np_) else {}
+    rows = ["| mutant (mutants/…) | check | result | s | remark |", "|---|---|---|---|---|"]
     for l in open(p):
         b, prop, rc, sec = l.rstrip("\n").split("\t")
         res = {"1": "killed", "0": "SURVIVED", "2": "harness error", "3": "patch does not apply"}.get(rc, rc)
-        rows.append(f"| {b[:-5]} | {prop} | {res} | {sec} |")
+        rows.append(f"| {b[:-5]} | {prop} | {res} | {sec} | {notes.get(b, '')} |")
     return "\n".join(rows)
 
 
